@@ -808,7 +808,14 @@ func (e *Enc) callSiteAsserts(x *ssa.Call, cc *callCtx) {
 			}
 		}
 		if inner != nil {
-			env.iter = inner.headSt
+			// persistent and heap state as at the head of this iteration; local variables as they are now (a local read inside
+			// iter() names the same value as outside)
+			env.iter = copyState(inner.headSt)
+			for k, v := range e.st {
+				if strings.HasPrefix(k, "loc:") {
+					env.iter[k] = v
+				}
+			}
 		}
 		t := env.boolExpr(ca.C.E)
 		nm := ca.C.Name()
